@@ -707,6 +707,12 @@ func c12Units(ctx *core.Ctx) []core.Unit {
 			cmd.Stderr = &errb
 			out, err := cmd.Output()
 			es := errb.String()
+			if cctx.Err() != nil && core.Overloaded() {
+				// the machine is overcommitted: the limit says nothing about termination
+				r.Exhaustive = false
+				r.Caps = append(r.Caps, "race pass GOMAXPROCS="+gmp+": not finished within "+limit.String()+" on an overcommitted machine (no verdict)")
+				return
+			}
 			if cctx.Err() != nil {
 				vio(r, "c12.termination", "concurrent API calls", "all pairs of the C12 bodies free-running under -race, GOMAXPROCS="+gmp, "every call returns", fmt.Sprintf("the pass was still running after %s (it normally takes minutes)", limit))
 				return
